@@ -42,6 +42,9 @@ use crate::selector::PathSelector;
 use crate::semaphore::Semaphore;
 use crate::walk::Walk;
 
+/// The time when the most recent call to [`group_files`] started.
+static SCAN_START: std::sync::Mutex<Option<DateTime<Local>>> = std::sync::Mutex::new(None);
+
 /// Groups items by key.
 /// After all items have been added, this structure can be transformed into
 /// an iterator over groups.
@@ -1219,6 +1222,8 @@ fn group_by_contents(
 /// write_report(&config, &log, &groups).unwrap();
 /// ```
 pub fn group_files(config: &GroupConfig, log: &dyn Log) -> Result<Vec<FileGroup<FileInfo>>, Error> {
+    // Remember when the scan started: the report must carry this time (see `write_report`).
+    *SCAN_START.lock().unwrap() = Some(Local::now());
     let spinner = log.progress_bar("Initializing", ProgressBarLength::Unknown);
     let ctx = GroupCtx::new(config, log)?;
 
@@ -1271,7 +1276,10 @@ pub fn write_report(
     log: &dyn Log,
     groups: &[FileGroup<FileInfo>],
 ) -> io::Result<()> {
-    let now = Local::now();
+    // The report timestamp is what the dedupe commands compare file modification times with.
+    // It must not be later than the first read of any file, otherwise a file rewritten (with
+    // the same length) while the scan was still running would look unmodified.
+    let now = SCAN_START.lock().unwrap().unwrap_or_else(Local::now);
 
     let total_count = file_count(groups.iter());
     let total_size = total_size(groups.iter());
